@@ -2,7 +2,7 @@
 (***************************************************************************)
 (* Validates histories recorded from the real TileManager / seed_task      *)
 (* against Expiry.tla.  One event per spec action:                         *)
-(*   op     request | seed | tick | touch | set | fail | recover           *)
+(*   op     request | seed | tick | touch | set | fail | recover | remove  *)
 (*   tiles  (request) requested tile names, in order                       *)
 (*   rule   (set, seed) [kind, arg]                                        *)
 (*   d      (tick) ticks of half a second                                  *)
@@ -37,6 +37,7 @@ Op ==
   \/ E.op = "set"     /\ Configure(RuleOf(E.rule))
   \/ E.op = "fail"    /\ UpstreamFail
   \/ E.op = "recover" /\ UpstreamRecover
+  \/ E.op = "remove"  /\ RemoveTile(E.tile)
 
 ObsOK ==
   /\ \A t \in Tiles : cache'[t].m = E.cache[t][1] /\ cache'[t].v = E.cache[t][2]
